@@ -164,6 +164,52 @@ mod verif_c13 {
         kani::cover!(true);
     }
 
+    // long payloads (a short-string or small-buffer fast path with a slip in the general path shows here)
+    #[kani::proof]
+    #[kani::stub(core::fmt::write, nofmt_write)]
+    #[kani::unwind(44)]
+    fn rt_string_and_bytes_40() {
+        let lit = "0123456789abcdefghijABCDEFGHIJ!@#$%^&*()";
+        match Any::new(lit) {
+            Ok(a) => match a.deserialize_into::<String>() {
+                Ok(back) => {
+                    let (x, y) = (back.as_bytes(), lit.as_bytes());
+                    assert!(x.len() == 40 && y.len() == 40);
+                    let mut i = 0;
+                    while i < 40 {
+                        assert!(x[i] == y[i]);
+                        i += 1;
+                    }
+                    std::mem::forget(back);
+                }
+                Err(_) => assert!(false),
+            },
+            Err(_) => assert!(false),
+        }
+        let mut v = Vec::with_capacity(40);
+        let mut i = 0;
+        while i < 40 {
+            v.push((i as u8).wrapping_mul(7).wrapping_add(200));
+            i += 1;
+        }
+        match Any::new(Blob(v)) {
+            Ok(a) => match a.deserialize_into::<Blob>() {
+                Ok(back) => {
+                    assert!(back.0.len() == 40);
+                    let mut i = 0;
+                    while i < 40 {
+                        assert!(back.0[i] == (i as u8).wrapping_mul(7).wrapping_add(200));
+                        i += 1;
+                    }
+                    std::mem::forget(back);
+                }
+                Err(_) => assert!(false),
+            },
+            Err(_) => assert!(false),
+        }
+        kani::cover!(true);
+    }
+
     // ---- B. `any` is the identity on scalar events: visitor event in == serializer event out ----------
     macro_rules! event_identity {
         ($name:ident, $visit:ident, $t:ty, $ev:expr) => {
